@@ -38,22 +38,24 @@ char* F___cxa_allocate_exception(uint64_t n) {
   char* p = excslot[excn].bytes; excn++; return p; }
 void F___cxa_free_exception(char* p) { }
 static char* exc_type_of(char* obj) { for (int k = 0; k < EXC_SLOTS; k++) if (obj == excslot[k].bytes) return exc_ti[k]; return 0; }
-void F___cxa_throw(char* obj, char* tinfo, char* dtor) { for (int k = 0; k < EXC_SLOTS; k++) if (obj == excslot[k].bytes) exc_ti[k] = tinfo; __exc_obj = obj; __exc_pending = 1; }
+static char* cur_ti;   /* type of the exception in flight (cache: avoids the slot search at every landing pad) */
+void F___cxa_throw(char* obj, char* tinfo, char* dtor) { for (int k = 0; k < EXC_SLOTS; k++) if (obj == excslot[k].bytes) exc_ti[k] = tinfo; __exc_obj = obj; cur_ti = tinfo; __exc_pending = 1; }
 /* harness-made exception (stubs that throw): returns the object, type recorded */
 char* __VERIF_throw_new(char* tinfo, uint64_t size) { char* o = F___cxa_allocate_exception(size); F___cxa_throw(o, tinfo, 0); return o; }
 static char* caught[4]; static int ncaught;
 char* F___cxa_begin_catch(char* obj) { __exc_pending = 0; if (ncaught < 4) caught[ncaught] = obj; ncaught++; return obj; }
 void F___cxa_end_catch(void) { if (ncaught > 0) ncaught--; }
-void F___cxa_rethrow(void) { __CPROVER_assert(ncaught > 0 && ncaught <= 4, "MODEL: rethrow outside catch"); __exc_obj = caught[(ncaught - 1) & 3]; __exc_pending = 1; }
+void F___cxa_rethrow(void) { __CPROVER_assert(ncaught > 0 && ncaught <= 4, "MODEL: rethrow outside catch"); __exc_obj = caught[(ncaught - 1) & 3]; cur_ti = exc_type_of(__exc_obj); __exc_pending = 1; }
 char* F___cxa_get_exception_ptr(char* obj) { return obj; }
 void F__ZSt9terminatev(void) { __CPROVER_assert(0, "VERIF: std::terminate called"); __CPROVER_assume(0); }
 void F___cxa_pure_virtual(void) { __CPROVER_assert(0, "VERIF: pure virtual called"); __CPROVER_assume(0); }
 void F___cxa_bad_cast(void);
 int __VERIF_isa(char* obj, char* want) {
-  char* ti = exc_type_of(obj);
-  for (int i = 0; i < 6 && ti; i++) { if (ti == want) return 1; char* b = __VERIF_base_of_gen(ti); ti = b ? b : std_base_of(ti); }
+  char* ti = (obj == __exc_obj) ? cur_ti : exc_type_of(obj);
+  for (int i = 0; i < 4 && ti; i++) { if (ti == want) return 1; char* b = __VERIF_base_of_gen(ti); ti = b ? b : std_base_of(ti); }
   return 0;
 }
+void __VERIF_resume(char* obj) { __exc_obj = obj; cur_ti = exc_type_of(obj); __exc_pending = 1; }
 char* __VERIF_exc_type(void) { return __exc_obj ? exc_type_of(__exc_obj) : 0; }
 static void throw_std(char* ti) { char* o = F___cxa_allocate_exception(32); F___cxa_throw(o, ti, 0); }
 void F__ZSt19__throw_logic_errorPKc(char* m) { throw_std(TI(11logic_error)); }
